@@ -151,6 +151,10 @@ class Ctx:
     def count(self, key, n=1):
         self.nontrivial[key] = self.nontrivial.get(key, 0) + n
 
+    def count_case(self, n=1):
+        """One more distinct scenario that is non-trivial by the check's rule (whatever number of kinds it shows)."""
+        self.cases = getattr(self, "cases", 0) + n
+
     def sample(self, obj, limit=4):
         if len(self.samples) < limit:
             self.samples.append(obj)
@@ -189,7 +193,9 @@ class Ctx:
 
     def finish(self, rule, assumptions=()):
         wall = time.time() - self.t0
-        nontriv = sum(self.nontrivial.values())
+        # distinct non-trivial scenarios: counted per scenario where the check does so, otherwise (conservatively) the
+        # largest single kind -- never the sum over kinds, which would count one scenario several times
+        nontriv = getattr(self, "cases", 0) or (max(self.nontrivial.values()) if self.nontrivial else 0)
         cov = {
             "states": max(1, self.states), "transitions": max(1, self.transitions),
             "traces_validated_against_impl": self.traces,
